@@ -759,6 +759,50 @@ func c10(run *ev.Run, tier string) {
 	c10Keyrings(run, base, &verified)
 	c10CallbackAndKeyFile(run, base, kr, &verified)
 	c10UnneededPassphrase(run, base, kr, &verified)
+	// the command line tool: a run whose signing fails reports the failure and leaves
+	// no package at the target, also when an earlier run had left one there
+	if bin := nfpmBin(run); bin != "" {
+		cdir := newWorkDir("c10-cli")
+		for _, fm := range []string{"deb", "deb-dpkg-sig", "rpm", "apk"} {
+			format := strings.SplitN(fm, "-", 2)[0]
+			s := base()
+			if fm == "deb-dpkg-sig" {
+				s.Deb.Sig.Method = "dpkg-sig"
+			}
+			switch format {
+			case "deb":
+				s.Deb.Sig.KeyFile = testKey("privkey.asc")
+			case "rpm":
+				s.RPM.Sig.KeyFile = testKey("privkey.asc")
+			case "apk":
+				s.APK.Sig.KeyFile = testKey("rsa.priv")
+			}
+			cfgp := filepath.Join(cdir, fm+".yaml")
+			_ = os.WriteFile(cfgp, []byte(s.YAML()), 0o644)
+			target := filepath.Join(cdir, "signed-"+fm+"."+format)
+			env := func(pass string) []string {
+				return []string{"PATH=" + os.Getenv("PATH"), "HOME=" + cdir, "NFPM_PASSPHRASE=" + pass}
+			}
+			run.Case("cli|failed-signing-over-an-earlier-package|"+fm, true)
+			so, se, code, err := runCmd(nil, cdir, env("hunter2"), bin, "package", "-f", cfgp, "-p", format, "-t", target)
+			if err != nil || code != 0 {
+				run.Violate("C10/cli/"+fm+"/signed-build-failed", map[string]any{"exit": code, "output": ev.Short(string(so)+string(se), 300)})
+				continue
+			}
+			so, se, code, err = runCmd(nil, cdir, env("not-the-passphrase"), bin, "package", "-f", cfgp, "-p", format, "-t", target)
+			atomic.AddInt64(&failures, 1)
+			if err == nil && code == 0 {
+				run.Violate("C10/cli/"+fm+"/failed-signing-reported-as-success", map[string]any{"output": ev.Short(string(so)+string(se), 300)})
+				continue
+			}
+			if raw, err := os.ReadFile(target); err == nil {
+				if p := dec.Decode(format, raw, false); len(raw) > 0 && len(p.Errs) == 0 {
+					run.Violate("C10/cli/"+fm+"/package-without-valid-signature-left-at-the-target/after-failed-signing-over-an-earlier-package", map[string]any{"exit": code, "bytes_at_target": len(raw), "signature_member_present": p.SigMember != nil || p.SigTar != nil})
+				}
+			}
+		}
+		removeWorkDir(cdir)
+	}
 	run.Set("signatures_verified", verified)
 	run.Set("callback_byte_streams_compared", cbBytes)
 	run.Set("failure_injections", failures)
